@@ -630,7 +630,8 @@ def run_c01(ctx):
           ('c01_n3w2', 3, 2, 'MC_DagEmpty3', {})]
     if not q:
         mc += [('c01_n3w3', 3, 3, 'MC_DagEmpty3', {}), ('c01_n3w2_mal', 3, 2, 'MC_DagEmptyMal', {}),
-               ('c01_n3w2_initdone', 3, 2, 'MC_DagInitDone', {}), ('c01_n3w1', 3, 1, 'MC_DagEmptyAll', {})]
+               ('c01_n3w2_initdone', 3, 2, 'MC_DagInitDone', {}), ('c01_n3w1', 3, 1, 'MC_DagEmptyAll', {}),
+               ('c01_n4w2_ok', 4, 2, 'MC_DagOk', {})]
     _common(ctx, INV_C01, mc, ['W_DecideDuringPub', 'W_TwoRunning', 'W_WaitReached'],
             impl_plan=[(3, 2, OUT_ALL, None, False, ctx.pick(25, 120), ctx.pick(12, 30)),
                        (4, 3, OUT_ALL, ['ABSENT', 'DONE'], False, ctx.pick(15, 80), ctx.pick(10, 30)),
@@ -651,7 +652,8 @@ def run_c02(ctx):
           ('c02_n2w1_all', 2, 1, 'MC_DagEmptyAll', {}),
           ('c02_n3w2', 3, 2, 'MC_DagEmpty3', {})]
     if not q:
-        mc += [('c02_n3w3', 3, 3, 'MC_DagEmpty3', {}), ('c02_n3w2_mal', 3, 2, 'MC_DagEmptyMal', {}), ('c02_n3w1_all', 3, 1, 'MC_DagEmptyAll', {})]
+        mc += [('c02_n3w3', 3, 3, 'MC_DagEmpty3', {}), ('c02_n3w2_mal', 3, 2, 'MC_DagEmptyMal', {}), ('c02_n3w1_all', 3, 1, 'MC_DagEmptyAll', {}),
+               ('c02_n4w2', 4, 2, 'MC_DagEmpty2', dict(coverage=False, timeout=3000))]
     _common(ctx, INV_C02, mc, ['W_Skipped', 'W_WaitReached'],
             impl_plan=[(3, 2, OUT_ALL, None, False, ctx.pick(30, 150), ctx.pick(10, 25)),
                        (3, 1, OUT_ALL, None, False, ctx.pick(15, 60), ctx.pick(4, 10)),
@@ -672,7 +674,7 @@ def run_c03(ctx):
           ('c03_live_n2w2', 2, 2, 'MC_DagEmptyAll', dict(spec='FairSpec', properties=['C03_Terminates'], coverage=False))]
     if not q:
         mc += [('c03_n3w2_any', 3, 2, 'MC_AnyEmpty', {}), ('c03_n3w3', 3, 3, 'MC_DagEmpty3', {}),
-               ('c03_n3w2_mal', 3, 2, 'MC_DagEmptyMal', {}), ('c03_n3w2_init', 3, 2, 'MC_DagInit', {}),
+               ('c03_n3w2_mal', 3, 2, 'MC_DagEmptyMal', {}), ('c03_n3w2_init', 3, 2, 'MC_DagInit', {}), ('c03_n4w2_ok', 4, 2, 'MC_DagOk', {}),
                ('c03_live_n3w2', 3, 2, 'MC_DagEmpty3', dict(spec='FairSpec', properties=['C03_Terminates'], coverage=False))]
     _common(ctx, INV_C03, mc, [('W_Raised', 2, 2, 'MC_AnyInit'), 'W_WaitReached', 'W_NotifyNobody', ('W_SecondCall', 2, 2, 'MC_DagInitDone', 2)],
             impl_plan=[(3, 2, OUT_ALL, ['ABSENT', 'ABSENT', 'DONE', 'FAILED', 'SKIPPED'], True, ctx.pick(30, 150), ctx.pick(10, 25)),
